@@ -104,6 +104,9 @@ def mode_exhaustive(ctx, rep, clause):
     h_ms = handled_values(ms, 'mode')
     if v_ms is None or v_gf is None:
         raise AnalysisError('mode validation not found in match_spectra / get_fragment_matches')
+    if not h_ms:
+        raise AnalysisError('match_spectra: no test of `mode` against a literal (and no table keyed by it) was found: the '
+                            'dispatch on the mode is written in a form the rule does not read')
     ob(rep, 'EXH', ms.fq, f'match_spectra handles exactly the modes it validates {sorted(v_ms)}', h_ms == v_ms,
        'one branch per validated mode', f'validates {sorted(v_ms)} but handles {sorted(h_ms)}: a validated mode '
        f'without a branch silently produces no matches', ms.loc(n1), clause)
